@@ -141,3 +141,20 @@ _txt('nulltxt', [
 _txt('prefalt', [
     Rule('start', [[Opt(L('x')), Opt(T('END'))]]),
 ], [Term('END', ('re', r'z|zz'))], tags={'dyn', 'finding'})
+
+
+# ---------------------------------------------------------------------------------------------------------------------
+# Terminal sets for the lexer-precedence property (grammar: any sequence of the non-ignored terminals)
+LEX = {}
+
+
+def _lex(name, terms, ignore=(), tags=()):
+    used = [t.name for t in terms if t.name not in ignore]
+    LEX[name] = dict(g=Grammar([Rule('start', [[Star(Grp(*[[T(n)] for n in used]))]])], terms=terms, ignore=ignore, name=name), tags=set(tags))
+
+
+_lex('kwid', [Term('NAME', ('re', '[a-z]+')), Term('IF', 'if'), Term('ON', 'on', flags='i'), Term('INT', ('re', '[0-9]+')),
+              Term('FLOAT', ('re', r'[0-9]+\.[0-9]+')), Term('DOT', '.'), Term('WS', ('re', ' +'))], ignore=['WS'])
+_lex('prio', [Term('A', ('re', 'a+'), priority=2), Term('B', ('re', 'a+b?')), Term('C', 'ab'), Term('D', ('re', '[ab]c')), Term('E', 'abc', priority=1)])
+_lex('eqw', [Term('X', ('re', '[ab]')), Term('Y', ('re', '[bc]')), Term('Z', 'b'), Term('W', ('re', '[cd][cd]')), Term('V', 'cd')])
+_lex('ci', [Term('NAME', ('re', '[a-zA-Z]+')), Term('SEL', 'se', flags='i'), Term('KW', 'Se'), Term('NUM', ('re', '[0-9]')), Term('SP', ' ')], ignore=['SP'])
